@@ -1,4 +1,5 @@
 mod bencode;
+mod gen_torrent;
 mod model;
 mod props;
 mod report;
